@@ -59,8 +59,9 @@ def scalar_fields(cm):
         for k, v in s.state.heap[cm.obj.oid].items():
             if k in cm.fields_new and cm.fields_new[k] == v:
                 continue
-            if any(isinstance(x, App) and x.f == ".random_scalar" for x in subterms(v)) and is_app(v, ".random_scalar"):
-                names.add(k)
+            if any(isinstance(x, App) and x.f == ".random_scalar" for x in subterms(v)) or \
+                    any(isinstance(x, App) and x.f == "call" and isinstance(x.args[0], Sym) and x.args[0].n.startswith("entropy_f") for x in subterms(v)):
+                names.add(k)     # every field derived from the entropy draw (scalar, element, message)
     return names
 
 
@@ -269,7 +270,7 @@ def writers(ctx, world, cm, scal):
                             ctx.ob("T6", inst, ok, "flag only ever set to True after construction" if ok else
                                    "flag %s is reset/changed to %s outside the constructor: a used instance becomes usable again"
                                    % (t.attr, ast.unparse(v) if v is not None else "<deleted>"), site)
-                    if t.attr in scal:
+                    if t.attr in scal and v is not None and any(isinstance(c, ast.Attribute) and c.attr == "random_scalar" for c in ast.walk(v)):
                         nw += 1
                         is_start = fn.name == "start"
                         is_cls = any(isinstance(d, ast.Name) and d.id == "classmethod" for d in fn.decorator_list)
